@@ -38,8 +38,13 @@ PUBLIC = ("run_payload", "register_payload", "execute", "adopt", "accept", "shut
 def own_helpers(fi):
     """inline the private synchronous helpers of the class (and its bases) an entry point delegates to"""
 
+    pkg = fi.module.name.rpartition(".")[0]
+
     def flt(f, ct):
-        return f.cls is not None and fi.cls is not None and not f.is_async and f is not fi and f.name not in PUBLIC and ct[1][0] == "attr" and ct[1][1] == SELF
+        if f.cls is None:
+            # module-level helpers of the runners package (a shared "submit and wait" function, ...)
+            return not f.is_async and f.module.name.startswith(pkg)
+        return fi.cls is not None and not f.is_async and f is not fi and f.name not in PUBLIC and ct[1][0] == "attr" and ct[1][1] == SELF
 
     return flt
 
@@ -56,6 +61,11 @@ def helper_closure(prog, fi):
             if isinstance(n, ast.Call) and isinstance(n.func, ast.Attribute) and isinstance(n.func.value, ast.Name) and n.func.value.id == "self" and n.func.attr not in PUBLIC and fi.cls is not None:
                 g = prog.lookup_method(fi.cls, n.func.attr)
                 if g is not None and not g.is_async:
+                    todo.append(g)
+            elif isinstance(n, ast.Call) and isinstance(n.func, ast.Name):
+                r = prog.resolve(f.module, n.func)
+                g = prog.functions.get(r) if r else None
+                if g is not None and g.cls is None and not g.is_async and g.module.name.startswith(fi.module.name.rpartition(".")[0]):
                     todo.append(g)
     return list(seen.values())
 
@@ -320,8 +330,36 @@ def binding(chk):
     common.binding_rule(chk, "O10.4", fi, forward_attr="run_payload")
 
 
+def no_lock_across_payload(chk, fns):
+    """O10.6: no function on the execute chain holds a threading lock while the payload runs: executes are independent --
+    one that is held up (or that itself executes another payload) must not block or deadlock the others"""
+    prog = chk.program
+    rule = "O10.6"
+    from . import c11
+
+    mods = {f.module for _l, fi in fns for f in helper_closure(prog, fi)}
+    locks, secs = c11.lock_sections(prog, sorted(mods, key=lambda m: m.name))
+    chain_nodes = {id(f.node): (label, f) for label, fi in fns for f in helper_closure(prog, fi)}
+    bad = False
+    chk.count(len(secs))
+    for lk, m, fnode, body in secs:
+        if id(fnode) not in chain_nodes:
+            continue
+        label, f = chain_nodes[id(fnode)]
+        holds = [c for st in body for c in ast.walk(st) if isinstance(c, ast.Call) and ((isinstance(c.func, ast.Attribute) and c.func.attr in ("run_payload", "result", "run", "run_sync")) or (isinstance(c.func, ast.Name) and c.func.id in ("payload",)))]
+        # a wrapping decorator: the whole body of the decorated function runs under the lock
+        decorated = body is fnode.body
+        if holds or decorated:
+            bad = True
+            chk.bad(rule, f.qual, "%s holds the lock `%s` while the payload runs (%s): all executes are serialised behind it, a payload that executes another payload deadlocks on a non-reentrant lock, and a long-running execute starves every other caller" % (label, lk, util.unparse(holds[0].func) if holds else "wrapping decorator"), node=fnode, stmt="lock %s across payload" % lk)
+    if not bad:
+        chk.ok(rule, "<execute chain>", "no function on the execute chain runs or forwards the payload inside a threading lock section (%d lock sections in its modules)" % len(secs))
+
+
 def run(chk):
     res = chk.guard("O10.1", "<execute chain>", identity_and_transparency, chk)
+    if res:
+        chk.guard("O10.6", "<execute chain>", no_lock_across_payload, chk, res[0])
     if res:
         fns, runners = res
         chk.guard("O10.4", "<leaves>", leaves, chk, fns)
